@@ -59,7 +59,10 @@ def coerce_int(maybe_int: _ScalarValue) -> int:
     if isinstance(maybe_int, int):
         numeric = maybe_int
     elif isinstance(maybe_int, float):
-        numeric = int(maybe_int)
+        try:
+            numeric = int(maybe_int)
+        except (OverflowError, ValueError):
+            raise ValueError(INVALID_INT % maybe_int)
         if numeric != maybe_int:
             raise ValueError(INVALID_INT % maybe_int)
     elif maybe_int is None:
@@ -100,7 +103,7 @@ def coerce_float(maybe_float: _ScalarValue) -> float:
 
     try:
         value = float(maybe_float)
-    except ValueError:
+    except (OverflowError, ValueError):
         raise ValueError(
             "Float cannot represent non numeric value: %s" % maybe_float
         )
